@@ -12,11 +12,12 @@
 (*   ChildBind{pre, child}           child = name of a stored envelope     *)
 (*   Sign     {inp, out, action, key, ktype, alg, kid, written, e}         *)
 (*   Recursive{written, nodes}       sign recursive over a hierarchy       *)
+(*   Resolve  {env, chain, written, used}  settings resolved per node (C09)*)
 (*   RawSig   {alg, width, verifies} one KMS signature (C04 fixed width)   *)
 (*   Extract  {mode, ...}            cache_create from_envelope / extract  *)
 (*   Same     {a, b, what}           two stored envelopes agree on `what`  *)
 (***************************************************************************)
-EXTENDS Envelope, Extract, Json, IOUtils
+EXTENDS Envelope, Extract, Resolve, Json, IOUtils
 
 Log == ndJsonDeserialize(IOEnv.TRACE_FILE)
 
@@ -34,6 +35,7 @@ Judge(s, e) ==
     [] e.ev = "Sign"      -> (IF ~Has(s, e.inp) THEN "UnknownArtifact"
                               ELSE SignJudge(s.envs[e.inp], e.action, e.key, e.ktype, e.alg, e.kid, e.written, e.e))
     [] e.ev = "Recursive" -> RecursiveJudge([e EXCEPT !.nodes = [i \in 1..Len(e.nodes) |-> [e.nodes[i] EXCEPT !.namedk = Range(@)]]])
+    [] e.ev = "Resolve"   -> ResolveJudge(e)
     [] e.ev = "RawSig"    -> (IF ~e.verifies THEN "SignatureVerifiesUnderMatchingKey"
                               ELSE IF e.width # SigWidth(e.alg) THEN "EcdsaFixedWidth" ELSE "ok")
     [] e.ev = "Extract"   -> ExtractJudge(e)
